@@ -3,7 +3,7 @@
 set -e
 cd "$(dirname "$0")/.."
 command -v java cmake ninja python3 g++ >/dev/null
-for f in spec/*.tla; do f=$(basename $f)
+for f in spec/*.tla; do f=$(basename $f); case "$f" in *_TTrace_*) continue;; esac
   (cd spec && tla-sany "$f" >/dev/null 2>&1) || { echo "SANY failed on $f"; (cd spec && tla-sany "$f" | tail -20); exit 1; }
 done
 python3 - <<'PY'
